@@ -326,6 +326,22 @@ def do(o):
             st["wrote_len"] = len(st["wrote"]) // 2
             st["wrote"] = ""
         return st
+    if op == "sendstring":
+        # PrefixProtocol.sendString / Int32StringReceiver.sendString called directly with n octets
+        res = []
+        for n in o["lens"]:
+            before = len(ep.transport.log)
+            try:
+                ep.proto.sendString(b"x" * n)
+                w = b"".join(e[1] for e in ep.transport.log[before:] if e[0] == "write")
+                res.append({"ok": True, "n": len(w), "head": w[:4].hex()})
+            except Exception as e:
+                w = b"".join(e2[1] for e2 in ep.transport.log[before:] if e2[0] == "write")
+                res.append({"ok": False, "exc": type(e).__name__, "n": len(w)})
+        st = state(ep)
+        st["wrote"] = ""
+        st["ss"] = res
+        return st
     if op == "lose":
         for _ in range(o.get("times", 1)):
             try:
